@@ -389,6 +389,19 @@ func (c *Conn) send(p *Pkt, raw []byte, class string, extraDelayNs int64, frag [
 		s.log(Rec{Kind: "dropb2c", Conn: c.k, N: m, P: p})
 		return m
 	}
+	if f := s.faultAt("dupB2C", c.k, m); f != nil && p != nil && class != "dup" && !s.race {
+		switch p.Type {
+		case TPubAck, TPubRec, TPubComp, TSubAck, TUnsubAck:
+			// the broker acknowledges twice: the same packet again one round trip later
+			s.fire("dupB2C")
+			pp := *p
+			s.after(us(s.sc.Cfg.LatC2BUs+s.sc.Cfg.LatB2CUs+60), "dupB2C", func() {
+				if c.alive() {
+					c.send(&pp, nil, "dup", 0, nil, false)
+				}
+			})
+		}
+	}
 	c.mu.Lock()
 	early := c.earlyNow
 	c.mu.Unlock()
